@@ -338,7 +338,7 @@ func checkC12(c *Ctx, r *Report) {
 		for _, ret := range returnsOf(f) {
 			if v, ok := constInt(retVal(ret, 0)); ok && v == limited {
 				var flag *ssa.Phi
-				for _, b := range f.Blocks {
+				for _, b := range blocksDeep(f) {
 					if i := ifOf(b); i != nil {
 						if p, ok := i.Cond.(*ssa.Phi); ok {
 							flag = p
